@@ -20,7 +20,7 @@ func init() {
 	register(&CheckDef{
 		ID:    "C20",
 		Level: "exploration",
-		Rule: "seeded request generator over all API endpoints (/stream /tx /halt /handoff /promote /import /export /info /events plus unknown paths) x methods x parameters (missing, empty, unknown, malformed, own/foreign node id) x bodies (empty, truncated at any byte, garbage, hostile position map, valid) x HTTP/1.1 vs h2 shape x node role (primary, replica, node without a primary); each request is served by the node's real root handler in-process (a handler panic is what net/http turns into a dropped connection without a response). Oracle: every request ends with a status and no panic (long-lived /stream and /events are hung up on by a fake-clock timeout), afterwards /info answers and a commit on the primary still succeeds, and for requests that are malformed, refused for the role, or name a database/lock that must already exist the digest of databases, positions, LTX directories and lock states is unchanged. evaluations = requests; distinct = distinct (role, endpoint, method, parameter class, body class) tuples; non-trivial = run with >= 10 requests",
+		Rule:  "seeded request generator over all API endpoints (/stream /tx /halt /handoff /promote /import /export /info /events plus unknown paths) x methods x parameters (missing, empty, unknown, malformed, own/foreign node id) x bodies (empty, truncated at any byte, garbage, hostile position map, valid) x HTTP/1.1 vs h2 shape x node role (primary, replica, node without a primary); each request is served by the node's real root handler in-process (a handler panic is what net/http turns into a dropped connection without a response). Oracle: every request ends with a status and no panic (long-lived /stream and /events are hung up on by a fake-clock timeout), afterwards /info answers and a commit on the primary still succeeds, and for requests that are malformed, refused for the role, or name a database/lock that must already exist the digest of databases, positions, LTX directories and lock states is unchanged. evaluations = requests; distinct = distinct (role, endpoint, method, parameter class, body class) tuples; non-trivial = run with >= 10 requests",
 		Run:   runC20,
 		NonTrivial: func(r *Run) bool {
 			return r.Stats["c20.requests"] >= 10
